@@ -728,7 +728,7 @@ class Interp:
     def ev_loop(self, e, env, depth):
         self.trace.append(("loop-enter", e.get("sp")))
         if self.havoc_loops:
-            for n in assigned_vars(e["body"]) + self.mut_passed_vars(e["body"]):
+            for n in assigned_vars(e["body"]) + self.mut_passed_vars(e["body"]) + (mutated_collections(e["body"]) if getattr(self, "havoc_collections", False) else []):
                 if n in env:
                     env[n] = ("sym", "loop:%s" % n)
         try:
@@ -1305,6 +1305,22 @@ ITER_IDENTITY = {"IntoIterator::into_iter", "slice::iter", "Vec::iter", "HashSet
                  "Iterator::rev", "Iterator::peekable", "Iterator::fuse", "DerefMut::deref_mut", "Option::iter", "Iterator::into_iter", "slice::iter_mut"}
 PANICS = {"panicking::panic", "panicking::panic_fmt", "panicking::unreachable_display", "panicking::panic_explicit", "rt::begin_panic", "panicking::panic_display"}
 PANIC_FNS = ("core::panicking::panic", "core::panicking::panic_fmt", "std::rt::begin_panic", "core::panicking::unreachable_display", "core::panicking::panic_explicit")
+
+
+COLLECTION_MUTATORS = {"Vec::push", "Vec::extend", "Extend::extend", "Vec::append", "Vec::insert", "Vec::extend_from_slice", "HashMap::insert", "HashSet::insert",
+                       "HashSet::extend", "HashMap::extend", "BTreeMap::insert", "BTreeSet::insert", "BTreeSet::extend", "VecDeque::push_back", "VecDeque::extend"}
+
+
+def mutated_collections(node):
+    """Variables that a loop body grows through a std collection method (`acc.extend(..)`, `out.push(..)`): loop-carried state just
+    like assigned variables."""
+    out = []
+    for n in T.walk(node):
+        if n.get("k") == "Call" and n.get("fn") and T.short(n["fn"], 2) in COLLECTION_MUTATORS and n.get("args"):
+            r = T.peel(n["args"][0])
+            if r.get("k") == "Var" and r["name"] not in out:
+                out.append(r["name"])
+    return out
 
 
 def assigned_vars(node):
